@@ -26,6 +26,33 @@ def run(ctx):
     ctx.floor('I/O call sites in the loader cone', n, 10)
     iorules.take_bytes_length_check(ctx, 'X1')
     iorules.entry_points(ctx, 'X1')        # no peeking / prefetching in front of the parser (a short file must reach it as it is)
+    # a cut must end in an error *value*: the reader primitives and the three functions that read from the outer stream have no
+    # panic-capable site that is not discharged (seed C13-k computed `delivered - requested` in the short-read branch of read_vec: debug
+    # builds panic on every truncated payload instead of returning Err)
+    import panics as _p
+    import totality as _T
+    import C04 as _c04
+    rd = [b for b in load if b.name.startswith('asefile::reader::') or b.name in ('asefile::parse::read_aseprite', 'asefile::parse::parse_frame',
+                                                                                 'asefile::parse::Chunk::read', 'asefile::parse::Chunk::read_all',
+                                                                                 'asefile::parse::check_chunk_bytes')]
+    nps = 0
+    for s_ in _p.inventory(fx, rd):
+        if s_.kind.startswith('alloc:'):
+            continue
+        nps += 1
+        why = _T.auto(s_)
+        if why is None:
+            f_ = _c04.find_row(s_)
+            if f_ is not None:
+                try:
+                    ok_, why_ = f_(ctx, s_)
+                except Exception as e:
+                    ok_, why_ = False, 'obligation crashed: %r' % (e,)
+                why = why_ if ok_ else None
+        if why is None:
+            ctx.inst('X1', '%s %s' % (s_.body.name.split('asefile::')[-1], s_.kind), False, '%s at %s in the read path can stop the load by a panic instead of '
+                     'an error value (not discharged by width, guard or table row)' % (s_.kind, s_.what[:70]), s_.span, key='X1|' + s_.key(0))
+    ctx.floor('panic-capable sites on the read path', nps, 3)
     iorules.outer_reader_calls(ctx, 'X2')
     iorules.count_driven_loops(ctx, 'X3')
     spec = SP.load_spec()
